@@ -529,6 +529,119 @@ class GateInterp(Interp):
         return ("opaque", name)
 
 
+class RelocInterp(Interp):
+    """Symbolic evaluation of one iteration of the loop that fixes up branch offsets: arrays are names, the loop index is the
+    symbol i, an element is ("idx", array, index polynomial); records the arguments of adjust_branch."""
+
+    def __init__(self, arrays):
+        super().__init__()
+        self.arrays = dict(arrays)        # local/field text -> role name
+        self.calls = []
+
+    def eval(self, e, env):
+        t = e.get("t")
+        if t == "PathExpr" and len(e["path"]["segs"]) == 1 and not env.has(e["path"]["name"]) and e["path"]["name"] in self.arrays:
+            return ("arr", self.arrays[e["path"]["name"]])
+        if t == "Field":
+            key = None
+            b = strip_paren(e["base"])
+            if b["t"] == "Field" and path_name(strip_paren(b["base"])) == "self":
+                key = f"self.{b['member']}.{e['member']}"
+            elif path_name(b) == "self":
+                key = f"self.{e['member']}"
+            if key in self.arrays:
+                return ("arr", self.arrays[key])
+        if t == "Range":
+            return ("range", self.eval(e["start"], env) if e.get("start") else None, self.eval(e["end"], env) if e.get("end") else None)
+        if t == "ForLoop":
+            it = self.eval(e["expr"], env)
+            i = Poly.var("i")
+            scope = env.child()
+            if not self.match(e["pat"], self.elem(it, i), scope):
+                raise Unanalysable("loop pattern")
+            try:
+                self.exec_block(e["body"], scope)
+            except (BreakEx, ContinueEx):
+                pass
+            return UNIT
+        if t == "Reference":
+            return self.eval(e["expr"], env)
+        return super().eval(e, env)
+
+    def elem(self, it, i):
+        if it[0] == "arr":
+            return ("idx", it[1], i)
+        if it[0] == "iter":
+            return self.elem(it[1], i)
+        if it[0] == "zip":
+            return Tup([self.elem(it[1], i), self.elem(it[2], i)])
+        if it[0] == "enum":
+            return Tup([i, self.elem(it[1], i)])
+        if it[0] == "range":
+            return i
+        raise Unanalysable(f"iteration over {it!r}")
+
+    def method(self, recv, name, targs, args, node):
+        if isinstance(recv, tuple) and recv[0] in ("arr", "iter", "zip", "enum"):
+            if name in ("iter", "iter_mut", "into_iter", "copied", "cloned"):
+                return ("iter", recv) if recv[0] == "arr" else recv
+            if name == "zip" and len(args) == 1 and isinstance(args[0], tuple):
+                return ("zip", recv, args[0])
+            if name == "enumerate":
+                return ("enum", recv)
+            if name == "len" and recv[0] == "arr":
+                return Poly.var("len_" + recv[1])
+        if isinstance(recv, Poly) and name in ("wrapping_add_signed", "wrapping_add", "checked_add_signed") and isinstance(args[0], Poly):
+            return recv + args[0]
+        if isinstance(recv, Poly) and name in ("wrapping_sub",) and isinstance(args[0], Poly):
+            return recv - args[0]
+        if isinstance(recv, Opt) and name in ("unwrap", "expect"):
+            return recv.v
+        raise Unanalysable(f"method .{name}() on {recv!r}")
+
+    def index(self, base, idx, node):
+        if isinstance(base, tuple) and base[0] == "arr":
+            if isinstance(idx, Poly):
+                return ("idx", base[1], idx)
+            if isinstance(idx, tuple) and idx[0] == "range":
+                return ("slice", base[1], idx[1], idx[2])
+        raise Unanalysable(f"index {base!r}[{idx!r}]")
+
+    def cast(self, v, ty, node):
+        return v
+
+    def lit(self, l):
+        v = super().lit(l)
+        return Poly.const(v) if isinstance(v, int) and not isinstance(v, bool) else v
+
+    def binary(self, op, l, r, node):
+        if op in ("+", "-") and isinstance(l, Poly) and isinstance(r, Poly):
+            return l + r if op == "+" else l - r
+        if op == "-":
+            return ("sub", l, r)
+        raise Unanalysable(f"binary {op}")
+
+    def unary(self, op, v, node):
+        if op == "*":
+            return v
+        return super().unary(op, v, node)
+
+    def match_ctor(self, name, elems, val, env, node):
+        base = name.split("::")[-1]
+        if base in ("BrZ", "BrNZ") and isinstance(val, tuple) and val[0] == "idx" and val[1] == "code" and len(elems) == 2:
+            # a branch instruction: (condition cell, offset in instructions)
+            if not self.match(elems[0], ("cond",), env):
+                return False
+            return self.match(elems[1], Poly.var("off"), env)
+        return False
+
+    def call(self, name, targs, args, node):
+        if name.split("::")[-1] == "adjust_branch":
+            self.calls.append(tuple(args))
+            return UNIT
+        raise Unanalysable(f"call {name}")
+
+
 class ArmInterp(GateInterp):
     """GateInterp plus scripts: the truth of each test of a tape cell (in order), the result of each recursive call of the
     interpreter function, and - after the first charge - whether the budget has become zero."""
@@ -777,25 +890,30 @@ def run_lim(res, ast, with_jit=True):
                     if pm.match_expr(e, "if let " + alt + " = __v_inst { emit_limit(&mut __v_insts, __e_cost); }", {"__v_inst": b1["__v_inst"], "__v_insts": b1["__v_insts"]}):
                         br = True
             res.check(br, "LIM-BACKEDGE", f"{BCMOD}|build_threaded_code|branches", w, "under `limited` both BrZ and BrNZ must be preceded by emit_limit")
+            # the fix-up loop, evaluated symbolically for one branch instruction i with offset off: the slice handed to adjust_branch must start
+            # at the branch op itself (offs[i]) and the distance must be start[i + off] - offs[i]
             okf = False
-
-            def norm_blocks(n):
-                if isinstance(n, list):
-                    return [norm_blocks(x) for x in n]
-                if isinstance(n, dict):
-                    n = {k: (norm_blocks(v) if isinstance(v, (dict, list)) else v) for k, v in n.items()}
-                    if n.get("t") == "Block":
-                        n["stmts"] = pm.inline_pure_lets(n["stmts"])
-                    return n
-                return n
+            fix_why = "no fix-up loop calling adjust_branch found"
+            want_slice = ("slice", "insts", ("idx", "offs", Poly.var("i")), None)
+            want_dist = ("sub", ("idx", "start", Poly.var("i") + Poly.var("off")), ("idx", "offs", Poly.var("i")))
             for l in loops[1:]:
-                ln = norm_blocks(l)
-                for c_ in walk_t(ln, "Call"):
-                    if path_name(c_["func"]) == "adjust_branch" and len(c_["args"]) == 2 and \
-                            pm.match_expr(c_["args"][1], f"{b1['__v_start']}[__v_i.wrapping_add_signed(__v_off)] as isize - {b1['__v_offs']}[__v_i] as isize"):
-                        okf = True
+                if not any(path_name(c_["func"]) == "adjust_branch" for c_ in walk_t(l, "Call")):
+                    continue
+                ri = RelocInterp({b1["__v_start"]: "start", b1["__v_offs"]: "offs", b1["__v_insts"]: "insts", "self.bytecode.insts": "code"})
+                try:
+                    ri.eval(l, Env())
+                    if len(ri.calls) != 1:
+                        fix_why = f"{len(ri.calls)} adjust_branch calls per branch instruction"
+                    else:
+                        sl, dist = ri.calls[0]
+                        if sl == want_slice and dist == want_dist:
+                            okf = True
+                        else:
+                            fix_why = f"adjust_branch is given the code from {sl!r} and the distance {dist!r}"
+                except (Unanalysable, Reached, KeyError, TypeError, IndexError) as u_:
+                    fix_why = f"the fix-up loop cannot be analysed (fail closed): {u_}"
             res.check(okf, "LIM-BACKEDGE", f"{BCMOD}|build_threaded_code|fixup", where(BCMOD, f["node"], "build_threaded_code"),
-                      "branch offsets must be start[i + off] - offset[i]: the target includes the target's budget check, the origin is the branch op itself")
+                      "branch offsets must be start[i + off] - offset[i]: the target includes the target's budget check, the origin is the branch op itself; " + fix_why)
         # the limit op
         lf = ast.fn(OPS, "limit")["node"]
         ps = [p_["pat"]["name"] for p_ in lf["sig"]["inputs"] if p_["t"] == "Arg" and p_["pat"]["t"] == "PIdent"]
